@@ -238,6 +238,12 @@ impl<'env> Executor<'env> {
         let mut next_loop_recursion_jump = None;
         let mut loaded_filters = [None; MAX_LOCALS];
         let mut loaded_tests = [None; MAX_LOCALS];
+        #[cfg(feature = "verif_hooks")]
+        let verif_entry = (
+            state.ctx.verif_frame_count(),
+            out.verif_capture_depth(),
+            state.instructions.name().to_string(),
+        );
 
         // If we are extending we are holding the instructions of the target parent
         // template here.  This is used to detect multiple extends and the evaluation
@@ -595,9 +601,23 @@ impl<'env> Executor<'env> {
                     ctx_ok!(state.ctx.push_frame(Frame::default()));
                 }
                 Instruction::PopFrame => {
+                    #[cfg(feature = "verif_hooks")]
+                    if state.ctx.verif_top_is_loop() {
+                        crate::verif::report(format!(
+                            "PopFrame pops a loop frame in {:?} at pc {}",
+                            verif_entry.2, pc
+                        ));
+                    }
                     state.ctx.pop_frame();
                 }
                 Instruction::PopLoopFrame => {
+                    #[cfg(feature = "verif_hooks")]
+                    if !state.ctx.verif_top_is_loop() {
+                        crate::verif::report(format!(
+                            "PopLoopFrame pops a non-loop frame in {:?} at pc {}",
+                            verif_entry.2, pc
+                        ));
+                    }
                     let mut l = state.ctx.pop_frame().current_loop.unwrap();
                     if let Some((target, end_capture)) = l.current_recursion_jump.take() {
                         pc = target;
@@ -675,6 +695,13 @@ impl<'env> Executor<'env> {
                     out.begin_capture(*mode);
                 }
                 Instruction::EndCapture => {
+                    #[cfg(feature = "verif_hooks")]
+                    if out.verif_capture_depth() <= verif_entry.1 {
+                        crate::verif::report(format!(
+                            "EndCapture ends a capture it did not begin in {:?} at pc {}",
+                            verif_entry.2, pc
+                        ));
+                    }
                     stack.push(out.end_capture(state.auto_escape));
                 }
                 Instruction::ApplyFilter(name, arg_count, local_id) => {
@@ -862,6 +889,44 @@ impl<'env> Executor<'env> {
                 }
             }
             pc += 1;
+        }
+
+        #[cfg(feature = "verif_hooks")]
+        {
+            let frames = state.ctx.verif_frame_count();
+            let captures = out.verif_capture_depth();
+            if frames != verif_entry.0 {
+                crate::verif::report(format!(
+                    "frame depth {} at entry but {} at exit of {:?}",
+                    verif_entry.0, frames, verif_entry.2
+                ));
+            }
+            if captures != verif_entry.1 {
+                crate::verif::report(format!(
+                    "capture depth {} at entry but {} at exit of {:?}",
+                    verif_entry.1, captures, verif_entry.2
+                ));
+            }
+            if !auto_escape_stack.is_empty() {
+                crate::verif::report(format!(
+                    "{} auto-escape modes left saved at exit of {:?}",
+                    auto_escape_stack.len(),
+                    verif_entry.2
+                ));
+            }
+            if state.auto_escape != initial_auto_escape {
+                crate::verif::report(format!(
+                    "auto-escape mode at exit differs from entry in {:?}",
+                    verif_entry.2
+                ));
+            }
+            if stack.verif_len() > 1 {
+                crate::verif::report(format!(
+                    "{} operands left at exit of {:?}",
+                    stack.verif_len(),
+                    verif_entry.2
+                ));
+            }
         }
 
         Ok(stack.try_pop())
